@@ -364,3 +364,66 @@ def c19(tier):
 
 
 PROPS["C19"] = c19
+
+
+def c18(tier):
+    pkg = "./pkg/states/pipes"
+    units = []
+    for flat in (0, 1):
+        for local in (0, 1):
+            for t in ((1, 2, 3) if tier == "quick" else (1, 2, 3, 4)):
+                units.append(U(pkg, "VerifC18Follow", weight=t * t, nconcrete=0, flat=flat, local=local, toggles=t))
+    return {"units": units,
+            "bounds": {"toggles": "1..3 (thorough 4) alternating activations / deactivations of the piped source state", "variants": "flat / non-flat x local / non-local target",
+                       "schedules": "every forked delivery may run before any later toggle or at quiescence, in any order (symbolic choices; replayed natively with gates)",
+                       "target": "starts in or out of sync (symbolic)"},
+            "outside": ["the real target machine's negotiation (the target is a recording am.Api stub)", "BindAny / Set pipes, BindServer consumers, Bind* assembly by reflection",
+                        "network targets' RPC"],
+            "assumptions": ["real add()/remove() closures of pkg/states/pipes; go statements become tasks whose execution point is chosen by the harness",
+                            "natively the chosen schedule is enforced by gating the stub target's EvAdd/EvRemove1"]}
+
+
+PROPS["C18"] = c18
+
+
+def _prepare_c15(repo, work, tier, spec, env):
+    gen = _prepare_shipped(repo, work, tier, spec, env)
+    # the node schemas one level deeper than in C19
+    units = []
+    for u in spec["units"]:
+        for sh in range(8):
+            v = dict(u, params=dict(u["params"], depth=2, nshards=8, shard=sh))
+            units.append(v)
+    spec["units"] = units
+    return gen
+
+
+def c15(tier):
+    spec = c19(tier)
+    spec["only_pkgs"] = ["pkg/node/states"]
+    spec["prepare"] = _prepare_c15
+    spec["bounds"] = {"schemas": "the shipped node schemas (Supervisor 36 states, Worker 24, Client 21, Bootstrap 9), dumped natively from the current source",
+                      "histories": "every sequence of 2 single-state Add1/Remove1 mutations from the empty machine: no two members of a mutually-Removing group "
+                                   "(PoolStatus, PoolNormalized, WorkStatus, ...) active, Require closure"}
+    spec["outside"] = ["pool gates (ForkWorkerEnter, ForkingWorkerEnter, PoolReadyEnter/Exit, ErrWorkerState) and the worker map: not encoded in this revision",
+                       "event orders across real forks / RPC / TTL caches, Heartbeat and normalisation rounds", "histories longer than 2 mutations"]
+    return spec
+
+
+PROPS["C15"] = c15
+
+
+def c17(tier):
+    pkg = "./pkg/history"
+    units = [U(pkg, "VerifC17Find", weight=3, cond=c, nconcrete=2 if c == 0 else 0) for c in range(6)]
+    units += [U(pkg, "VerifC17Track", weight=10, mode=m) for m in range(5)]
+    return {"units": units,
+            "bounds": {"db": "0..3 records over 2 tracked states (of a 3-state machine whose index order differs from the tracked order), ticks 0..3", "query": "one state condition "
+                       "(Active / Activated / Inactive / Deactivated over either tracked state) or one scalar range (MTimeSum, MachTick), limit 0..2",
+                       "tracking": "1..2 transitions (accepted / rejected / check, called A or B, symbolic tick changes), MaxRecords 1..2, Called / Changed allow- and block-lists, TrackRejected"},
+            "outside": ["bbolt / badger / gorm backends and backend equivalence", "crash points after Sync", "MTime/MTimeStates ranges (Time.Before/After are documented one way and implemented "
+                        "another)", "HTime ranges (wall clock)", "Machine.Export/Import", "combinations of Called and Changed lists (ambiguous semantics)"],
+            "assumptions": ["Memory built as a struct literal around a stub am.Api (StateNames, Time, MachineTick, Index1)", "tracer.TransitionEnd called directly with constructed transitions"]}
+
+
+PROPS["C17"] = c17
